@@ -243,7 +243,7 @@ class C16(Prop):
     id = 'C16'
     rule = ('compiled LP / MILP / SOCP / MISOCP formulas of generated deterministic models (ro and dro). (format) coefficients from '
             '{1e-9, 1e-7, 0.1, 1/3, 2.5, 1e6, 3e15, negatives, 0, -0.0, 1e30}, empty rows, infinite and finite bounds, integer and '
-            'binary columns with user bounds, cone rows: the text of lp_export() is read by a strict LP-format reader written for '
+            'binary columns with user bounds, cone rows, and the dual formula of continuous models: the text of lp_export() is read by a strict LP-format reader written for '
             'this check and compared entry by entry (exact float equality) with the formula; (solve) well-conditioned models: the '
             'exported file is read and solved by gurobipy.read (an independent reader) and must reproduce the optimum of solving '
             'the formula directly. In both modes the DataFrame of show() is compared cell by cell with linear/sense/const/qmat/'
@@ -275,6 +275,21 @@ class C16(Prop):
         msg = compare_show(f)
         if msg:
             return Outcome.fail('show:' + msg.split(' ')[0], 'show(): ' + msg, labels)
+        if not any(t in 'IB' for t in case['vtypes']):
+            # the dual formula is a compiled program too (its objective usually starts with a negative coefficient)
+            with quiet():
+                fd = m.do_math(primal=False)
+            try:
+                pd_ = parse_lp(fd.lp_export())
+            except LPSyntax as e:
+                return Outcome.fail('lp_syntax:dual', 'lp_export() of the dual formula is not valid for a strict LP reader: %s' % e, labels)
+            msg = compare_with_formula(pd_, fd)
+            if msg:
+                return Outcome.fail('lp_content:dual:' + msg.split(':')[0].split(' ')[0], 'dual formula: ' + msg, labels)
+            msg = compare_show(fd)
+            if msg:
+                return Outcome.fail('show:dual:' + msg.split(' ')[0], 'show() of the dual formula: ' + msg, labels)
+            labels.append('dual_formula')
         nt = bool(re.search(r'[0-9]e[-+]?[0-9]', text)) or bool(parsed['qrows']) or bool(parsed['gen']) or bool(parsed['bin']) or \
             any(not t for (_, t, _, _) in parsed['rows'])
         if re.search(r'[0-9]e[-+]?[0-9]', text):
